@@ -90,12 +90,14 @@ let parse_md_ast (s : string) : elem list * int option =
       | 'H' -> EHeading (nat_of_int (Char.code body.[0] - 48), text_of_hex (String.sub body 1 (String.length body - 1)))
       | 'B' -> EBlank
       | 'V' -> (match split_on '/' (String.sub body 1 (String.length body - 1)) with
-          | [lang; b] -> EForeign (nat_of_int (Char.code body.[0] - 48), text_of_hex lang, hl b)
+          | [lang; b; tl] -> EForeign (nat_of_int (Char.code body.[0] - 48), text_of_hex lang, hl b, text_of_hex tl)
           | _ -> failwith "foreign")
       | 'S' ->
         let n = Char.code body.[0] - 48 in
         (match split_on '/' (String.sub body 1 (String.length body - 1)) with
-         | cfg :: comments :: rest ->
+         | cfg :: comments :: rest0 ->
+           let tl = text_of_hex (List.nth rest0 (List.length rest0 - 1)) in
+           let rest = List.filteri (fun i _ -> i < List.length rest0 - 1) rest0 in
            let cfg = if cfg = "-" then None else Some (text_of_string cfg_table.(int_of_string cfg)) in
            let cmd = (match rest with
                | ["~"] -> None
@@ -106,7 +108,7 @@ let parse_md_ast (s : string) : elem list * int option =
                      if it.[0] = 'E' then BExp (text_of_hex v) else BCode (text_of_string v)) (split_on ',' items) in
                  Some ((List.hd cs, List.tl cs), items)
                | _ -> failwith "scrut cmd") in
-           EScrut (nat_of_int n, cfg, hl comments, cmd)
+           EScrut (nat_of_int n, cfg, hl comments, cmd, tl)
          | _ -> failwith "scrut")
       | _ -> failwith "elem") (split_on ';' s) in
     (d, !front)
@@ -190,7 +192,7 @@ let run_md () = iter_lines (fun line ->
                  | [] -> None
                  | e :: r -> let next = line + List.length (render_elem e) in if next <= k then go r next else Some (e, line) in go d 0) in
              (match cut with
-              | Some (EScrut (_, _, comments, Some _), start) when k >= start + 1 + List.length comments + 1 ->
+              | Some (EScrut (_, _, comments, Some _, _), start) when k >= start + 1 + List.length comments + 1 ->
                 if List.length got <> List.length want + 1 then
                   report "SPEC:C06" "the document ends inside a scrut block (after its `$` line): the block is neither reported nor read to the end -- its test is silently dropped" line
               | _ -> ())
